@@ -1,0 +1,58 @@
+//! Verification hooks. Compiled only with the `verif-hooks` feature (off by default).
+//!
+//! With the feature on and nothing installed, every hook is a pass-through to the global
+//! allocator / a no-op, so behaviour is identical to a build without the feature.
+
+use core::alloc::Layout;
+use core::ptr;
+use core::sync::atomic::{AtomicPtr, Ordering::Relaxed};
+
+/// Replacement for the three global-allocator entry points the crate uses for heap buffers.
+pub struct AllocFns {
+    pub alloc: unsafe fn(Layout) -> *mut u8,
+    pub realloc: unsafe fn(*mut u8, Layout, usize) -> *mut u8,
+    pub dealloc: unsafe fn(*mut u8, Layout),
+}
+
+static ALLOC_FNS: AtomicPtr<AllocFns> = AtomicPtr::new(ptr::null_mut());
+
+/// Installs (or with `None`, removes) the allocator functions used for heap buffers.
+///
+/// Must be called while no other thread is using the crate.
+pub fn set_alloc(fns: Option<&'static AllocFns>) {
+    let p = match fns {
+        Some(f) => f as *const AllocFns as *mut AllocFns,
+        None => ptr::null_mut(),
+    };
+    ALLOC_FNS.store(p, Relaxed);
+}
+
+#[inline]
+pub(crate) unsafe fn alloc(layout: Layout) -> *mut u8 {
+    let p = ALLOC_FNS.load(Relaxed);
+    if p.is_null() {
+        unsafe { alloc::alloc::alloc(layout) }
+    } else {
+        unsafe { ((*p).alloc)(layout) }
+    }
+}
+
+#[inline]
+pub(crate) unsafe fn realloc(ptr: *mut u8, layout: Layout, new_size: usize) -> *mut u8 {
+    let p = ALLOC_FNS.load(Relaxed);
+    if p.is_null() {
+        unsafe { alloc::alloc::realloc(ptr, layout, new_size) }
+    } else {
+        unsafe { ((*p).realloc)(ptr, layout, new_size) }
+    }
+}
+
+#[inline]
+pub(crate) unsafe fn dealloc(ptr: *mut u8, layout: Layout) {
+    let p = ALLOC_FNS.load(Relaxed);
+    if p.is_null() {
+        unsafe { alloc::alloc::dealloc(ptr, layout) }
+    } else {
+        unsafe { ((*p).dealloc)(ptr, layout) }
+    }
+}
